@@ -11,8 +11,8 @@ OVERLAY = {"attestation/yubiattest/zz_verif_attest_test.go": os.path.join(vlib.H
 TRACE_CFG = "SPECIFICATION TraceSpec\nCONSTANTS\n  MHBytes = {0}\n  MaxVal = 0\n  MutCtx <- MutCtxAll"
 CONF = {
     "C06": dict(test="TestVerifAttest06", fml="TC06", strict="Strict06",
-                quick=dict(cfg="MCAttest_06", bits=[1024, 2048, 3072], nflip=40),
-                thorough=dict(cfg="MCAttest_06t", bits=[1024, 1536, 2048, 3072, 4096], nflip=400)),
+                quick=dict(cfg="MCAttest_06", bits=[1024, 2048, 3072], oddbits=[1030, 2041], nflip=40),
+                thorough=dict(cfg="MCAttest_06t", bits=[1024, 1536, 2048, 3072, 4096], oddbits=[1025, 1030, 2041, 2047, 3071], nflip=400)),
     "C16": dict(test="TestVerifAttest16", fml="TC16", strict="Strict16",
                 quick=dict(cfg="MCAttest_16", mutperpos=2, truncstep=3, mintevery=7, nrandmh=3000, reps=1, alt=400, bufreuse=300),
                 thorough=dict(cfg="MCAttest_16", mutperpos=16, truncstep=1, mintevery=1, nrandmh=60000, reps=4, alt=6000, bufreuse=4000)),
@@ -29,7 +29,7 @@ def key_of(prop, e):
     pan = str(r["pan"]).lower()
     if prop == "C06":
         return "op=attest via=%s label=%s scheme=%s attestor=%s epoch=%s kt=%s alg=%d rel=%s time=%s sf=%s mut=%s shape=%s acc=%s pan=%s" % (
-            e.get("via", "value"), e.get("lab", "") or "-", e.get("sch", "-"), e.get("hist", "?"), e.get("now", 0), e["kt"], e["alg"], e["rel"], e["time"], e["sf"], e["mut"], e["em"]["shape"], str(r["acc"]).lower(), pan)
+            e.get("via", "value"), e.get("lab", "") or "-", e.get("sch", "-"), e.get("hist", "?"), e.get("now", 0), e["kt"] + ("-odd%d" % e.get("k", 0) if e.get("kc") == "odd" else ""), e["alg"], e["rel"], e["time"], e["sf"], e["mut"], e["em"]["shape"], str(r["acc"]).lower(), pan)
     if e["op"] == "modhex":
         return "op=modhex history=%s vlen=%d present=%s ok=%s pan=%s" % (e.get("hist", "-"), len(e["val"]), str(e["present"]).lower(), str(r["ok"]).lower(), pan)
     if e["op"] == "parse":
@@ -103,7 +103,7 @@ def run(prop, tier):
     wd = vlib.workdir(prop, "run")
     planp, outp = os.path.join(wd, "plan.json"), os.path.join(wd, "obs.ndjson")
     if prop == "C06":
-        plan = {"c06": {"cases": cases, "bits": tc["bits"], "nflip": tc["nflip"], "workers": 4}}
+        plan = {"c06": {"cases": cases, "bits": tc["bits"], "oddbits": tc["oddbits"], "nflip": tc["nflip"], "workers": 4}}
     else:
         plan = {"c16": {"cases": cases, "mutperpos": tc["mutperpos"], "truncstep": tc["truncstep"], "mintevery": tc["mintevery"], "nrandmh": tc["nrandmh"], "reps": tc["reps"], "alt": tc["alt"], "bufreuse": tc["bufreuse"]}}
     meta = {"tier": tier, "seed": vlib.seed(), "plan": {k: v for k, v in list(plan.values())[0].items() if k != "cases"}}
@@ -124,9 +124,17 @@ def run(prop, tier):
         cases_t = cases
         cases = [x for x in cases if x["c"]["time"] not in ("lapsing", "becoming")]
         ncross = sum(1 for x in cases if x["c"].get("via") == "parsed")
+        nodd = sum(1 for x in cases if x["c"].get("kc") == "odd" and x["c"]["em"]["lead"] != "FF")
+        noddpo = sum(1 for x in cases if x["c"].get("kc") == "odd" and x["c"]["mut"] in ("dg", "pfx"))
+        cases_o = cases
+        cases = [x for x in cases if not (x["c"].get("kc") == "odd" and x["c"]["em"]["lead"] != "FF")]
         nrsa = sum(1 for x in cases if x["c"]["kt"] == "rsa" and x["c"]["em"]["lead"] != "FF" and x["c"].get("via") != "parsed")
         nff = sum(1 for x in cases if x["c"]["kt"] == "rsa" and x["c"]["em"]["lead"] == "FF")
-        want = nrsa * len(tc["bits"]) + nff + (len(cases) - nrsa - nff - ncross) + ncross * sum(1 for b in tc["bits"] if 1536 <= b <= 3072)
+        want = nrsa * len(tc["bits"]) + nff + (len(cases) - nrsa - nff - ncross) + ncross * sum(1 for b in tc["bits"] if 1536 <= b <= 3072) \
+            + nodd * len(tc["oddbits"]) - (0 if tier == "thorough" else noddpo * (len(tc["oddbits"]) - 1))
+        cases = cases_o
+        if nodd == 0 or summ["odd_accepted"] == 0:
+            raise NoVerdict("vacuous run: no case on a device key whose size is no multiple of 8 (%d), or no genuine signature of such a key accepted" % nodd)
         if summ["predecessors"] == 0:
             raise NoVerdict("vacuous run: no call was issued after an accepted attestation")
         if summ["predecessors_accepted"] != summ["predecessors"] and not verdict.violations and not verdict.known:
@@ -134,11 +142,11 @@ def run(prop, tier):
         if ncross == 0 or summ["cross_accepted"] == 0:
             raise NoVerdict("vacuous run: no label x scheme case (%d) or none of them accepted" % ncross)
         cases = cases_t
-        if summ["a_cases"] + summ["unrealisable"] != want or summ["unrealisable"] > 0:
+        if summ["a_cases"] + summ["unrealisable"] + summ["unrealisable_odd"] != want or summ["unrealisable"] > 0 or summ["unrealisable_odd"] > nodd * len(tc["oddbits"]) // 20:
             raise NoVerdict("only %d of %d exported cases were materialised (%d unrealisable)" % (summ["a_cases"], want, summ["unrealisable"]))
         if summ["accepted"] == 0 or summ["b_cases"] == 0:
             raise NoVerdict("vacuous run: no attestation accepted or no direction-B case")
-        if summ["primed"] != len(tc["bits"]) + 4 or summ["twin_calls_on_used"] == 0:
+        if summ["primed"] != len(tc["bits"]) + len(tc["oddbits"]) + 4 or summ["twin_calls_on_used"] == 0:
             raise NoVerdict("vacuous run: the genuine certificates were not all accepted on the long-lived Attestor (%d) or no forged twin was presented to it (%d)"
                             % (summ["primed"], summ["twin_calls_on_used"]))
     else:
@@ -195,10 +203,14 @@ def replay(prop, path):
     mp = meta.get("plan", {})
     if prop == "C06":
         drop = ("k", "src", "res", "info", "hist")
-        a = [x for x in evs if x["e"]["src"] in ("A", "A-cross", "A-epoch")]
-        b = [x["tid"] for x in evs if x["e"]["src"] not in ("A", "A-cross", "A-epoch")]
-        bits = sorted({x["e"]["k"] * 8 for x in a if x["e"]["k"] and "-ff" not in x["tid"]}) or mp.get("bits", [1024])
+        asrc = ("A", "A-cross", "A-epoch", "B-pred")
+        a = [x for x in evs if x["e"]["src"] in asrc]
+        b = [x["tid"] for x in evs if x["e"]["src"] not in asrc]
+        bits = sorted({x["e"]["k"] * 8 for x in a if x["e"]["k"] and "-ff" not in x["tid"] and x["e"].get("kc") != "odd"}) or mp.get("bits", [1024])
+        oddk = {x["e"]["k"] for x in a if x["e"].get("kc") == "odd"}
+        oddbits = [b for b in mp.get("oddbits", [1030, 2041]) if (b + 7) // 8 in oddk] or ([1030] if oddk else [])
         plan = {"c06": {"cases": [{"c": {k: v for k, v in x["e"].items() if k not in drop}} for x in a], "bits": bits,
+                        "oddbits": oddbits,
                         "nflip": mp.get("nflip", 40), "only": b, "nob": not b, "workers": 2}}
     else:
         drop = ("src", "res", "info", "der", "hist")
